@@ -96,3 +96,81 @@ def write_gen(gen_dir, fname, text):
     if old != text:
         open(p, "w").write(text)
     print(f"GEN {fname}")
+
+
+# ---------------------------------------------------------------------------------------------
+# Robustness helpers: translators must survive behaviour-preserving refactorings (renamed locals,
+# code moved into private helper functions, loops turned into iterator chains, …).
+# ---------------------------------------------------------------------------------------------
+
+def all_fn_names(src):
+    """names of all `fn` items in comment-stripped src (test modules should be cut off by the caller)"""
+    return sorted(set(re.findall(r"\bfn\s+([A-Za-z_][A-Za-z0-9_]*)\b", src)))
+
+
+def cut_tests(src):
+    """comment-stripped src without its trailing `#[cfg(test)] mod tests { … }`"""
+    m = re.search(r"#\[cfg\(test\)\]\s*(?:pub\s+)?mod\s+\w+", src)
+    return src[:m.start()] if m else src
+
+
+def try_fn_body(src, name, which=0):
+    try:
+        return fn_body(src, name, which)
+    except SystemExit:
+        return None
+
+
+def inlined_body(src, name, max_depth=5, _stack=()):
+    """Body of `fn name` with every call of another function DEFINED IN THE SAME FILE
+    (`self.foo(..)`, `Self::foo(..)`, `foo(..)`, also followed by `.await` / `?`) textually replaced by
+    `{ /*foo*/ <body of foo, inlined recursively> }`. Marker scans on the result see the same effects in
+    the same order whether or not a block was extracted into a private helper. Recursion and depth are
+    bounded; a function already on the inlining stack is left as a call."""
+    body = try_fn_body(src, name)
+    if body is None:
+        die(f"translator: fn {name} not found")
+    if len(_stack) >= max_depth:
+        return body
+    names = set(all_fn_names(src)) - {name} - set(_stack)
+    out, i = [], 0
+    pat = re.compile(r"(?:\bself\s*\.\s*|\bSelf::\s*|(?<![\w.:]))([A-Za-z_][A-Za-z0-9_]*)\s*(?:::<[^>()]*>)?\(")
+    while True:
+        m = pat.search(body, i)
+        if not m:
+            out.append(body[i:]); break
+        callee = m.group(1)
+        if callee not in names or body[max(0, m.start() - 3):m.start()].strip().endswith("fn"):
+            out.append(body[i:m.end()]); i = m.end(); continue
+        # skip the argument list
+        j, depth = m.end(), 1
+        while j < len(body) and depth:
+            if body[j] in "([{": depth += 1
+            elif body[j] in ")]}": depth -= 1
+            j += 1
+        inner = inlined_body(src, callee, max_depth, _stack + (name,))
+        out.append(body[i:m.start()] + "{ /*" + callee + "*/ " + body[m.end():j - 1] + " ; " + inner + " }")
+        i = j
+    return "".join(out)
+
+
+def first_pos(text, patterns):
+    """index of the first match of any of the regex patterns in text, or -1"""
+    best = -1
+    for p in patterns if isinstance(patterns, (list, tuple)) else [patterns]:
+        m = re.search(p, text)
+        if m and (best < 0 or m.start() < best):
+            best = m.start()
+    return best
+
+
+def order_of(text, markers):
+    """markers: dict name -> regex or list of regexes. Returns the marker names sorted by first occurrence
+    in text; dies when a marker is missing (strict about meaning)."""
+    pos = {}
+    for k, pats in markers.items():
+        p = first_pos(text, pats)
+        if p < 0:
+            die(f"translator: marker `{k}` not found")
+        pos[k] = p
+    return [k for k, _ in sorted(pos.items(), key=lambda kv: kv[1])]
